@@ -41,6 +41,10 @@ type desc struct {
 	K      int    `json:"k"`              // rewriter parameter
 	Gzip   bool   `json:"gzip"`           // FS.Compress + Accept-Encoding: gzip
 	NoIdx  bool   `json:"noidx,omitempty"` // GenerateIndexPages = false
+	FSH    bool   `json:"fsh,omitempty"`   // handler built by FSHandler(root, k) (default filesystem, rw none|slashes, file-handle cache ON)
+	Idx2   bool   `json:"idx2,omitempty"`  // IndexNames = {"nope.html", "index.html"}
+	Sfx    string `json:"sfx,omitempty"`   // FS.CompressedFileSuffix (custom gzip suffix)
+	PNF    bool   `json:"pnf,omitempty"`   // FS.PathNotFound set
 	Target hlib.B `json:"target"`         // request target (path[?query])
 	Host   hlib.B `json:"host"`           // Host header
 	G      string `json:"g,omitempty"`    // generator class
@@ -195,7 +199,23 @@ func run(d desc) hlib.Case {
 			return p
 		}
 	}
+	idxNames := []string{"index.html"}
+	if d.Idx2 {
+		idxNames = []string{"nope.html", "index.html"}
+		ffs.IndexNames = idxNames
+	}
+	gzSuffix := ".fasthttp.gz"
+	if d.Sfx != "" {
+		ffs.CompressedFileSuffix = d.Sfx
+		gzSuffix = d.Sfx
+	}
+	if d.PNF {
+		ffs.PathNotFound = func(ctx *fasthttp.RequestCtx) { ctx.SetBodyString("custom not found") }
+	}
 	h := ffs.NewRequestHandler()
+	if d.FSH { // the convenience constructor: same settings, its own slashes stripper, handle cache enabled
+		h = fasthttp.FSHandler(osRoot, d.K)
+	}
 
 	var req fasthttp.Request
 	req.SetRequestURIBytes(d.Target)
@@ -208,6 +228,10 @@ func run(d desc) hlib.Case {
 	reqPath := append([]byte(nil), ctx.URI().PathOriginal()...)
 	host := append([]byte(nil), ctx.Host()...)
 	workPath := append([]byte(nil), ctx.Path()...)
+	if d.FSH && d.Rw == "slashes" { // FSHandler installs its own (unwrapped) stripper: observe its result separately
+		rewritten = append([]byte(nil), fasthttp.NewPathSlashesStripper(d.K)(&ctx)...)
+		hasRewritten = true
+	}
 
 	status := 0
 	var body []byte
@@ -250,11 +274,14 @@ func run(d desc) hlib.Case {
 		workPath = rewritten
 	}
 
-	idx := []string{hlib.HexS("index.html")}
+	var idx []string
+	for _, n := range idxNames {
+		idx = append(idx, hlib.HexS(n))
+	}
 	cfg := hlib.App("mkCfg", hlib.Bool(d.OS), hlib.HexS(root), hlib.HexS(croot), hlib.List(idx), rewriterTerm(d))
 	sfx := hlib.None()
 	if d.Gzip {
-		sfx = hlib.Some(hlib.HexS(".fasthttp.gz"))
+		sfx = hlib.Some(hlib.HexS(gzSuffix))
 	}
 	rwObs := hlib.None()
 	if hasRewritten {
@@ -286,6 +313,12 @@ func kind(d desc) string {
 	}
 	if d.NoIdx {
 		m += "+noidx"
+	}
+	if d.FSH {
+		m += "+fshandler"
+	}
+	if d.Idx2 || d.Sfx != "" || d.PNF {
+		m += "+opts"
 	}
 	k := ""
 	if d.Rw != "none" {
@@ -394,6 +427,21 @@ func corpus() []desc {
 				out = append(out, d)
 			}
 			out = append(out, mk(c, false, "/%78"+strings.Repeat("x", max(c.k-2, 0))+"-private//secret.txt", "example.com", "sibling"))
+		}
+		if c.rw == "none" || (c.rw == "slashes" && c.k <= 2) || (c.rw == "prefix" && c.k == 3) {
+			for _, t := range []string{"/", "/a/", "/a/b/", "/a/f.txt", "/noindex/", "/a", "/../secret.txt", "/nonexistent", "/xx-private/secret.txt", "/xx.bak/", "/a/a/f.txt", "/%2e%2e/f.txt"} {
+				d := mk(c, false, t, "example.com", "opts")
+				d.Idx2, d.PNF = true, true
+				out = append(out, d)
+				d = mk(c, true, t, "example.com", "opts")
+				d.Sfx = ".z"
+				out = append(out, d)
+				if c.os && !c.croot && c.rw != "prefix" {
+					d = mk(c, false, t, "example.com", "fshandler")
+					d.FSH = true
+					out = append(out, d, d) // twice: the second request is answered from the handle cache
+				}
+			}
 		}
 		if c.rw == "vhost" && full {
 			for _, hst := range hosts {
